@@ -14,6 +14,8 @@ def grab(pattern):
     m=re.search(pattern, src, re.S|re.M)
     return m.group(0)
 parts=[grab(r'^type HIDI struct \{.*?^\}'), grab(r'^type HIDIConfig struct \{.*?^\}'), grab(r'^type HIDIConfigRaw struct \{.*?^\}'), grab(r'^func LoadHIDIConfig\(.*?^\}')]
+if re.search(r'^func unmarshalTOML\(', src, re.M):
+    parts.append(grab(r'^func unmarshalTOML\(.*?^\}'))
 open(d+'/internal/demo_hidiconfig/extracted.go','w').write('package demo_hidiconfig\n\nimport (\n\t"fmt"\n\t"os"\n\t"time"\n\n\t"github.com/pelletier/go-toml/v2"\n)\n\n'+'\n\n'.join(parts)+'\n')
 open(d+'/internal/demo_hidiconfig/zz_findings_test.go','w').write('''package demo_hidiconfig
 
